@@ -43,6 +43,21 @@ func probePre(p pairArg) (string, string) {
 	return "", ""
 }
 
+// history of depth 2: a comparison must not depend on which comparison was made before it
+type histArg struct {
+	First  pairArg `json:"first"`
+	Second pairArg `json:"second"`
+}
+
+func probeHist(h histArg) (string, string) {
+	_ = sem.DefaultComparePreRelease(h.First.A, h.First.B)
+	_ = sem.New(1, 2, 3, h.First.A).Compare(sem.New(1, 2, 3, h.First.B))
+	if k, d := probePre(h.Second); k != "" {
+		return "after_previous_call:" + k, fmt.Sprintf("after comparing (%q, %q): %s", h.First.A, h.First.B, d)
+	}
+	return "", ""
+}
+
 func text(tag bool, core, pre, build string) string {
 	s := core
 	if tag {
@@ -179,6 +194,22 @@ func main() {
 			})
 		})
 		r.Sample("pair", pairArg{"beta.2", "beta.11"})
+		pHi := mc.NewProbe(r, "history2", nil, probeHist)
+		r.Phase("serial: all histories of two comparisons over 14 pre-releases (the second comparison is judged against section 11)", "complete for depth 2 over the listed pre-releases", func() {
+			hs := []string{"", "1", "2", "3", "2.1", "1.3", "alpha", "beta", "rc", "beta.alpha", "alpha.rc", "a.b.c", "a.b", "b.c"}
+			r.Serial(func(w *mc.W) {
+				for _, a := range hs {
+					for _, b := range hs {
+						for _, c := range hs {
+							for _, d := range hs {
+								w.Point()
+								pHi.Do(w, histArg{pairArg{a, b}, pairArg{c, d}})
+							}
+						}
+					}
+				}
+			})
+		})
 		U3 := append([]string{""}, oracle.PreReleases("0129aB-.", 3)...)
 		r.Phase(fmt.Sprintf("all %d^2 ordered pairs of pre-releases of length <= 3 through Compare, CompareVersion, CompareTag, Ver.Latest, Latest, LatestVersion, LatestTag", len(U3)), "complete", func() {
 			r.Parallel(int64(len(U3)), 1, func(w *mc.W, i int64) {
